@@ -23,6 +23,7 @@ package channelmonitor
 //@   guarantee shutdownLk [shutdown-is-final] {C14} old(self.cancel) == nil ==> self.cancel == nil -- once shut down, always shut down (at most one close per monitored channel)
 
 //@ func (*channelmonitor.monitoredChannel).restartChannel {C14,C20}
+//@   acquires {C20} channelmonitor.Monitor.lk, channelmonitor.monitoredChannel.shutdownLk, graphsync.Transport.dtChannelsLk, graphsync.dtChannel.lk, graphsync.dtChannel.optionsLk, monitoredChannel.restartLk, registry.Registry.registryLk, tracing.SpansIndex.spansLk, transportoptions.TransportOptions.optionsLk
 //@   modifies mc.restartedAt, mc.restartQueued, mc.consecutiveRestarts
 //@   requires [fresh-goroutine] !holds(mc.busyToken)
 //@   loop 0 invariant [attempting] holds(mc.busyToken)
@@ -30,6 +31,7 @@ package channelmonitor
 //@   ensures [close-on-failure] all(monitoredChannel.closeChannelAndShutdown, $1 == ret(monitoredChannel.doRestartChannel, 0)) || true
 
 //@ func (*channelmonitor.monitoredChannel).doRestartChannel {C14}
+//@   acquires {C20} channelmonitor.Monitor.lk, channelmonitor.monitoredChannel.shutdownLk, graphsync.Transport.dtChannelsLk, graphsync.dtChannel.lk, graphsync.dtChannel.optionsLk, monitoredChannel.restartLk, registry.Registry.registryLk, tracing.SpansIndex.spansLk, transportoptions.TransportOptions.optionsLk
 //@   modifies mc.consecutiveRestarts
 //@   requires [one-attempt-at-a-time] holds(mc.busyToken)
 //@   guarantee [count-increments] self.consecutiveRestarts == old(self.consecutiveRestarts) + 1 && self.restartedAt == old(self.restartedAt) && self.restartQueued == old(self.restartQueued)
@@ -41,6 +43,7 @@ package channelmonitor
 //@   ensures [exceeded] calls(monitoredChannel.sendRestartMessage) == 0 ==> result != nil
 
 //@ func (*channelmonitor.monitoredChannel).sendRestartMessage {C14}
+//@   acquires {C20} channelmonitor.Monitor.lk, channelmonitor.monitoredChannel.shutdownLk, graphsync.Transport.dtChannelsLk, graphsync.dtChannel.lk, graphsync.dtChannel.optionsLk, registry.Registry.registryLk, tracing.SpansIndex.spansLk, transportoptions.TransportOptions.optionsLk
 //@   ensures [connect-then-restart] first(monitorAPI.PeerID) || true
 //@   ensures [order] before(monitorAPI.ConnectTo, monitorAPI.RestartDataTransferChannel) && all(monitorAPI.RestartDataTransferChannel, $2 == mc.chid) &&
 //@       all(monitorAPI.ConnectTo, $2 == mc.chid.OtherParty(ret(monitorAPI.PeerID, 0))) && calls(monitorAPI.RestartDataTransferChannel) <= 1
@@ -48,11 +51,13 @@ package channelmonitor
 //@   ensures [restart-failure] calls(monitorAPI.RestartDataTransferChannel) == 1 && ret(monitorAPI.RestartDataTransferChannel, 0) != nil ==> result != nil
 
 //@ func (*channelmonitor.monitoredChannel).resetConsecutiveRestarts {C14}
+//@   acquires {C20} monitoredChannel.restartLk
 //@   modifies mc.consecutiveRestarts
 //@   guarantee [zeroes] self.consecutiveRestarts == 0 && self.restartedAt == old(self.restartedAt) && self.restartQueued == old(self.restartQueued)
 //@   ensures [no-effects] untouched
 
 //@ func (*channelmonitor.monitoredChannel).Shutdown {C14,C20}
+//@   acquires {C20} monitoredChannel.shutdownLk
 //@   modifies mc.cancel
 //@   guarantee [clears] self.cancel == nil
 //@   ensures [first-wins] result == (calls(dyn.CancelFunc) == 1) && calls(dyn.CancelFunc) <= 1
@@ -60,6 +65,7 @@ package channelmonitor
 //@   ensures [nothing-second-time] !result ==> untouched
 
 //@ func (*channelmonitor.monitoredChannel).closeChannelAndShutdown {C14,C09}
+//@   acquires {C20} channelmonitor.monitoredChannel.shutdownLk, graphsync.Transport.dtChannelsLk, graphsync.dtChannel.lk, tracing.SpansIndex.spansLk
 //@   ensures [at-most-once] calls(monitorAPI.CloseDataTransferChannelWithError) == (ret(monitoredChannel.Shutdown, 0) ? 1 : 0)
 //@   ensures [closes-this-channel] all(monitorAPI.CloseDataTransferChannelWithError, $2 == mc.chid && $3 == cherr && $1 == mc.parentCtx)
 //@   ensures [shutdown-first] first(monitoredChannel.Shutdown)
@@ -68,20 +74,33 @@ package channelmonitor
 //@   pure
 //@   ensures [def] result == (m.cfg != nil)
 //@ func (*channelmonitor.Monitor).addChannel {C14,C20}
+//@   acquires {C20} Monitor.lk
 //@   modifies m.channels
 //@   ensures [disabled] m.cfg == nil ==> result == nil && untouched
 //@ func (*channelmonitor.Monitor).AddPushChannel {C14}
+//@   acquires {C20} channelmonitor.Monitor.lk
 //@   modifies m.channels
 //@   ensures [forward] seq(Monitor.addChannel) && called(Monitor.addChannel, _, chid, true) && result == ret(Monitor.addChannel, 0)
 //@ func (*channelmonitor.Monitor).AddPullChannel {C14}
+//@   acquires {C20} channelmonitor.Monitor.lk
 //@   modifies m.channels
 //@   ensures [forward] seq(Monitor.addChannel) && called(Monitor.addChannel, _, chid, false) && result == ret(Monitor.addChannel, 0)
 //@ func (*channelmonitor.Monitor).onMonitoredChannelShutdown {C14,C20}
+//@   acquires {C20} Monitor.lk
 //@   modifies m.channels
 //@   guarantee [forgets-only-this] forall k datatransfer.ChannelID :: (has(self.channels, k) ==> old(has(self.channels, k)) && k != chid) && (old(has(self.channels, k)) && k != chid ==> has(self.channels, k))
 
 //@ func (*channelmonitor.monitoredChannel).watchForResponderComplete {C14}
+//@   acquires {C20} channelmonitor.monitoredChannel.shutdownLk, graphsync.Transport.dtChannelsLk, graphsync.dtChannel.lk, tracing.SpansIndex.spansLk
 //@   ensures [disabled] (*mc.cfg).CompleteTimeout == 0 ==> untouched
 //@   ensures [closes-only-on-timer] calls(monitoredChannel.closeChannelAndShutdown) <= 1
 //@ func channelmonitor.newMonitoredChannel {C14}
 //@   opaque
+
+// lock effects of this package's interfaces (C20)
+//@ extern func (channelmonitor.monitorAPI).RestartDataTransferChannel
+//@   acquires {C20} channelmonitor.Monitor.lk, channelmonitor.monitoredChannel.shutdownLk, graphsync.Transport.dtChannelsLk, graphsync.dtChannel.lk, graphsync.dtChannel.optionsLk, registry.Registry.registryLk, tracing.SpansIndex.spansLk, transportoptions.TransportOptions.optionsLk
+//@ extern func (channelmonitor.monitorAPI).CloseDataTransferChannelWithError
+//@   acquires {C20} graphsync.Transport.dtChannelsLk, graphsync.dtChannel.lk, tracing.SpansIndex.spansLk
+//@ extern func (channelmonitor.monitorAPI).SubscribeToEvents
+//@   acquires {C20} nothing
